@@ -40,8 +40,17 @@ Reading aid.
 
 What is claimed where.  (a) `augment_monotone`, (b) `graft_paths` + `graft_stamps` +
 `grafted_namespace` + `view_eq_paths`, (c) `loop_is_complete_run` + `loop_no_truncation` + `model_fuel_sufficient`,
-(d) `augment_loop_confluent` + `collision_in_every_order`, (e) `augment_exactly_once`,
+(d) `augment_loop_confluent` + `augment_loop_confluent_free` + `collision_in_every_order`, (e) `augment_exactly_once`,
 (f) `augment_reported` (+ `augment_reported_phase` on the parametrised model).
+Not proved (kept visible here): that the second order also ends without `duplicate-node` error
+is stated as "no application of the second order collides" (`EvFree`), not on its error list —
+an upper bound on the swept errors would need the invariant "child names are distinct at every
+level" (`NoDupNames`), whose preservation by `merge` is not proved; for the same reason
+`view_eq_paths` takes `NoDupNames` as a hypothesis.  Equality of forests is equality of the flat
+view: same locations with the same data; child order and whether an unwritten rpc input / output
+entry has been created are abstracted (the dump sorts children; the correspondence run compares
+the created entries).  `PhaseInput` (hypotheses of (f) about what `ToEntry` and the registry hand
+to the loop) is not derived from the `ToEntry` model.
 Outside the claim, as in the property text: the implicit case of a shorthand choice member as
 target (such an augment is applied by the leftover pass after FixChoice; (f) counts it as
 applied there) and uses-augment.
@@ -206,6 +215,20 @@ theorem augment_loop_confluent (R : Res) (fuel1 fuel2 : Nat) (mods1 mods2 : Arra
     (∀ ev ∈ loopTrace R fuel2 mods2 s2, EvFree R s1.forest ev) ∧
     (∀ x, x ∈ (loopTrace R fuel2 mods2 s2).map Ev.key ↔ x ∈ (loopTrace R fuel1 mods1 s1).map Ev.key) :=
   loop_confluent R fuel1 fuel2 mods1 mods2 s1 s2 hforest hpend hn1 hn2 hcov1 hcov2 hfuel1 hfuel2 hfree
+
+/-- The symmetric form, with collision-freeness stated on the applications themselves: if no
+application of one order collides, none of any other order does, and both orders apply the same
+augments, end in the same view and leave the same augments unapplied. -/
+theorem augment_loop_confluent_free (R : Res) (fuel1 fuel2 : Nat) (mods1 mods2 : Array Nat) (s1 s2 : PState)
+    (hforest : s2.forest = s1.forest) (hpend : ∀ id a, a ∈ s2.pendingOf id ↔ a ∈ s1.pendingOf id)
+    (hn1 : NodupPending s1) (hn2 : NodupPending s2) (hcov1 : Cover s1 mods1) (hcov2 : Cover s2 mods2)
+    (hfuel1 : mu s1 < fuel1) (hfuel2 : mu s2 < fuel2)
+    (hfr1 : ∀ ev ∈ loopTrace R fuel1 mods1 s1, EvFree R s1.forest ev) :
+    viewOf (loopState R fuel2 mods2 s2).forest = viewOf (loopState R fuel1 mods1 s1).forest ∧
+    (∀ id a, a ∈ (loopState R fuel2 mods2 s2).pendingOf id ↔ a ∈ (loopState R fuel1 mods1 s1).pendingOf id) ∧
+    (∀ ev ∈ loopTrace R fuel2 mods2 s2, EvFree R s1.forest ev) ∧
+    (∀ x, x ∈ (loopTrace R fuel2 mods2 s2).map Ev.key ↔ x ∈ (loopTrace R fuel1 mods1 s1).map Ev.key) :=
+  loop_confluent_free R fuel1 fuel2 mods1 mods2 s1 s2 hforest hpend hn1 hn2 hcov1 hcov2 hfuel1 hfuel2 hfr1
 
 /-- The same for the model's `augmentLoop` (what cannot be said without the trace is left out). -/
 theorem augment_loop_confluent_model (reg : Registry) (fuel1 fuel2 : Nat) (mods1 mods2 : Array Nat) (s1 s2 : PState)
